@@ -122,6 +122,7 @@ type c43Client struct {
 	readerDone  chan struct{}
 	handlerDone chan struct{}
 	panicVal    atomic.Value // string
+	wedged      atomic.Value // string: stack of HandleConn's goroutine parked on a mutex after the connection was closed
 
 	finished bool
 }
@@ -204,11 +205,30 @@ func (c *c43Client) Finish() []byte {
 		c.finished = true
 		_ = c.c.Close()
 		<-c.readerDone
-		<-c.handlerDone
+		select {
+		case <-c.handlerDone:
+		case <-time.After(15 * time.Second):
+			// HandleConn has not returned although its connection is closed: is its
+			// goroutine sitting on a mutex that nobody will release?
+			if st := verifkit.MutexParked("proxy.(*Proxy).HandleConn", 3*time.Second); st != "" {
+				c.wedged.Store(st)
+			} else {
+				<-c.handlerDone
+			}
+		}
 	}
 	c.mu.Lock()
 	defer c.mu.Unlock()
 	return append([]byte(nil), c.buf...)
+}
+
+// Wedged returns the stack of the HandleConn goroutine if it was found parked on
+// a mutex for good after the client had closed the connection ("" otherwise).
+func (c *c43Client) Wedged() string {
+	if v, ok := c.wedged.Load().(string); ok {
+		return v
+	}
+	return ""
 }
 
 // Panic returns the panic that escaped HandleConn ("" if none). Valid after Finish.
